@@ -48,7 +48,12 @@ def new_app(front, registerer=None):
 def deliver(sess, face, wire, timers_now=True):
     """Hand one packet to the application's receive callback as a transport would and settle.
     Returns the exception that escaped the awaited callback (None if it returned normally)."""
-    typ, _ = enc.parse_tl_num(wire)
+    try:
+        typ, _ = enc.parse_tl_num(wire)
+    except Exception:
+        # no transport can frame this byte string as a packet (stream faces read T and L first;
+        # the datagram face is exercised separately in C06): nothing is delivered
+        return None
     box = {}
 
     async def go():
